@@ -6,6 +6,7 @@
 
 mod campaigns;
 mod extra;
+mod serde_campaign;
 mod gen;
 mod run;
 mod types;
@@ -290,10 +291,10 @@ fn shrink(drv: &mut Drv, c: &Case, kind: &str) -> (Case, String, String) {
 
 fn key_type(k: &str) -> char {
     match k {
-        "p" | "q" | "xs" | "k" | "bytes" => 'L',
+        "p" | "q" | "xs" | "k" => 'L',
         "pw" | "pw2" | "f" | "g" => 'P',
         "knots" => 'K',
-        "op" | "fmt" => 'S',
+        "op" | "fmt" | "bytes" | "val" => 'S',
         _ => 'F',
     }
 }
@@ -320,7 +321,7 @@ pub fn parse_case(line: &str) -> Option<Case> {
             c.tag = v.to_string();
             continue;
         }
-        if matches!(k, "impl" | "direct" | "directmax" | "byref" | "ln" | "exp" | "json" | "cbor" | "borsh" | "back") {
+        if matches!(k, "impl" | "direct" | "directmax" | "byref" | "ln" | "exp" | "agree" | "tree" | "borsh" | "rt") {
             continue;
         }
         let val = match key_type(k) {
